@@ -173,11 +173,21 @@ def run_online(f, sig, cuts, pastify=False, text=None, reset_after=None, semanti
         if pastify:
             spec.pastify()
         if isinstance(cuts, dict):
-            nup = max(len(c) for c in cuts.values()) + 1
+            # per-variable chunking; an entry "@v" places the chunks of v at the given (increasing) update indices,
+            # the other updates deliver an empty batch for v
+            nup = max([len(c) for k, c in cuts.items() if not k.startswith("@")] +
+                      [max(c) for k, c in cuts.items() if k.startswith("@") and c]) + 1
             chunks = {}
             for v in vs:
                 ch = chunk_signal(sig[v], cuts[v])
-                chunks[v] = ch + [[] for _ in range(nup - len(ch))]
+                pos = cuts.get("@" + v)
+                if pos and len(pos) == len(ch):
+                    row = [[] for _ in range(nup)]
+                    for k_, c_ in zip(pos, ch):
+                        row[k_] = c_
+                    chunks[v] = row
+                else:
+                    chunks[v] = ch + [[] for _ in range(nup - len(ch))]
         else:
             nup = len(cuts) + 1
             chunks = {v: chunk_signal(sig[v], cuts) for v in vs}
@@ -694,15 +704,34 @@ def ia_stream(ctx):
     from .props import c06
     rng = ctx.subrng("ia-c")
     cases = []
-    for k in range(ctx.budget(600, 6000)):
+    for k in range(ctx.budget(1500, 9000)):
         mon = rng.choice(["offc", "onc"])
         allow = (DENSE_ON - {"since", "bsince"}) if mon == "onc" else DENSE_OFF
         g = DGen(rng, VARS, allow, max_bound=rng.choice([2, 4]))
-        f = g.formula(rng.choice([0, 1, 1, 2, 3]))
-        vs = F.variables(f) or ["x"]
-        io = {v: rng.choice(["input", "output"]) for v in vs if rng.random() < 0.8}
         sem = rng.choice(list(c06.SEMS))
-        cases.append((mon, f, gen_signals(rng, vs), sem, io))
+        if k % 3 == 0:
+            # the predicate override itself: one to three simple predicates (== and !== as often as the orderings) over
+            # small-integer signals, with an interface that makes at least one of them insensitive
+            def pred():
+                op = rng.choice(["eq", "ne", "eq", "ne", "lt", "le", "gt", "ge"])
+                rhs = ("c", rng.choice([0.0, 1.0, 2.0])) if rng.random() < 0.6 else ("v", rng.choice(VARS[:2]))
+                return ("b", op, ("v", rng.choice(VARS[:2])), rhs)
+            f = pred()
+            for _ in range(rng.choice([0, 1, 1, 2])):
+                f = ("b", rng.choice(["and", "or", "implies"]), f, pred()) if rng.random() < 0.8 else ("u", "not", f)
+            if rng.random() < 0.3:
+                f = ("t1", rng.choice(["once", "hist"]), f)
+            vs = F.variables(f) or ["x"]
+            kind = rng.choice(["input", "output"])
+            io = {v: kind for v in vs} if rng.random() < 0.6 else {v: rng.choice(["input", "output"]) for v in vs}
+            nk = rng.randint(4, 10)
+            sig = {v: [(GRID * 2 * i, float(rng.randint(-2, 2))) for i in range(nk)] for v in vs}
+        else:
+            f = g.formula(rng.choice([0, 1, 1, 2, 3]))
+            vs = F.variables(f) or ["x"]
+            io = {v: rng.choice(["input", "output"]) for v in vs if rng.random() < 0.8}
+            sig = gen_signals(rng, vs)
+        cases.append((mon, f, sig, sem, io))
     tfs = [F.from_proto(o[3:]) for o in common.driver_run(["ia | %s | %s | %s" % (sem, ",".join(v for v, t in io.items() if t == "input"),
                                                                                    F.to_proto(f)) for _, f, _, sem, io in cases])]
     doms = model_query([(f, sig, []) for _, f, sig, _, _ in cases])
